@@ -802,7 +802,13 @@ def depends(rep, repo):
     """Pin lists hold None exactly where Line.remove leaves it and fork outputs stay gap-free and correctly numbered (C09.remove): the
     traversals rely on both."""
     from checks import c09
-    c09.removal(rep, repo.mod('circuit'))
+    cmod = repo.mod('circuit')
+    try:
+        if c09.history_evaluated(rep, repo, cmod):       # Line.remove evaluated along edit histories (C09.history)
+            return
+    except ModelError as e:
+        rep.note(f'C09.history: the graph classes are outside the evaluated subset ({e}); the structural rule C09.remove decides')
+    c09.removal(rep, cmod)
 
 
 def order_rules(rep, repo):
